@@ -10,16 +10,20 @@ PROPS = {   # subject prefix -> (property, what failed)
  "fix: enter the claim state before": ("C04", "a contending claim processed before the claim's send call returned (zero latency) met the old state and was ignored: two CAs operational on one address"),
  "fix: J1939-22 do not apply the destination filter to PDU2": ("C05", "J1939-22: PDU2 (broadcast) single frames were dropped unless the group extension equalled a local address"),
  "fix: timer and subscriber lists": ("C12", "remove_timer/unsubscribe removed while iterating (one of two adjacent registrations survived); an expired one-shot made the job thread skip the next timer (served up to 5 s late); a callback that removed itself and returned False killed the job thread with ValueError"),
+ "fix: a periodic timer whose deadline equals": ("C12", "a periodic timer whose deadline is exactly equal to the time stamp of the job thread's pass (a faster timer keeps the thread passing) was served, not advanced, and called a second time in the next pass: two calls in one period"),
  "fix: Dm1.stop_send": ("C16", "Dm1.stop_send removed a timer that does not exist: DM1 kept being sent after stop_send"),
  "fix: DM22 request carries SPN bits": ("C16", "DM22 request encoded SPN bits 16..18 from spn >> 22: every SPN above 65535 was requested as SPN & 0xFFFF"),
  "fix: the job thread tolerates receive sessions": ("C08", "job thread held between the key snapshot and the table lookup while the receive thread completes the message: KeyError, job thread dead (both layers)"),
  "fix: J1939-22 advance the send session before": ("C08", "J1939-22 originator pre-empted after a segment was on the bus but before the session state was advanced: the CTS / EOM acknowledge handled in between was overwritten, message lost or job thread spinning"),
  "fix: ignore transport connection-management frames sent from the global": ("C07", "a CTS / end-of-message acknowledge from source address 255 matches the key of the stack's own broadcast session: J1939-22 leaks the BAM session number for good, J1939-21 cuts the broadcast short (found after adding frames from 255 to the C07 alphabet)"),
  "fix: DM1 receive parser no longer writes": ("C16", "one Dm1 object used for sending and receiving, send callback handing out a persistent lamp dict: a DM1 received from another node overwrote it and the node then broadcast foreign lamp states as its own (found by the one-object exchange scenarios added to C16)"),
+ "fix: J1939-22 multi-PG buffer is taken out": ("C11", "J1939-22: a parameter group submitted with a time limit while the job thread was inside the (blocking) send call of the collection buffer for the same destination was appended to that buffer and deleted with it: send_pgn returned True, the group never reached the bus"),
  "fix: DM14 server treats a read of exactly 8": ("C17", "a DM14 read of exactly 8 data bytes: the server sent 'operation complete' before its multi-packet DM16, the client returned [] and both sides stayed non-idle"),
  "fix: DM14 read converts every object": ("C17", "DM14 read with value conversion: every object after the first was converted from a wrong byte slice"),
  "fix: DM14 server does not queue the end-of-message": ("C17", "after a multi-packet DM14 read the 7 bytes of the end-of-message acknowledge stayed in the server's write queue: the next write handed them to the application instead of the written data"),
  "fix: DM14 server forgets the pointer": ("C17", "after one successful DM14 access every request for a different memory address was refused as busy"),
+ "fix: Dm14Query enters WAIT_FOR_SEED before": ("C17", "DM14 client: the server's first answer handled by the receive thread before the client's send call had returned (a driver whose send returns after the frame was on the bus) met state IDLE: AssertionError on the receive thread, read/write raised 'No response from server'"),
+ "fix: DM14 server expects the write data before": ("C17", "DM14 server: the client's DM16 handled by the receive thread before the send call of the server's 'proceed' had returned was not queued: respond() returned None instead of the written bytes, the closing DM14 was taken for a new request"),
  "fix: MemoryAccess.read/write return to IDLE": ("C18", "after any failed DM14 query the client facade stayed in WAIT_QUERY: the next read raised 'Process already Running', the next write silently did nothing"),
  "fix: DM14 server side is usable again": ("C18", "after a refusal at the proceed callback (no seed/key) the server facade was deaf; after a wrong key the server object kept the rejected request's state; after respond(False) a request for another address was refused as busy"),
  "fix: Dm14Query leaves no listener": ("C18", "Dm14Query kept its DM15 listener, state and queued exceptions after a failed query: the next query raised the previous query's error"),
